@@ -259,7 +259,8 @@ CallMatches(ins, g) ==
   IN /\ ins.cls = g.rcls /\ ins.ty = g.rty
      /\ IF g.variadic
         THEN /\ Len(fixed) >= np
-             /\ IF vapos = 0 THEN Len(fixed) = np ELSE vapos = np + 1
+             /\ vapos = np + 1      \* IL reference: the marker separates named from variable arguments - also when
+                                   \* there are none of the latter (x86-64: %al is only set for marked calls; /repo 98fe6bc)
         ELSE vapos = 0 /\ Len(fixed) = np
      /\ \A i \in 1..np : i <= Len(fixed) => fixed[i].cls = g.params[i].cls /\ fixed[i].ty = g.params[i].ty
 Bad_CallArgsMatchCallee(M, F) ==
